@@ -241,7 +241,7 @@ asn1c_lang_C_type_common_INTEGER(arg_t *arg) {
 	}
 
 	if(expr->expr_type == ASN_BASIC_INTEGER
-	&& asn1c_type_fits_long(arg, expr) == FL_FITS_UNSIGN) {
+	&& asn1c_INTEGER_is_unsigned(arg, expr)) {
 		REDIR(OT_STAT_DEFS);
 		if(!(expr->_type_referenced)) OUT("static ");
 		OUT("const asn_INTEGER_specifics_t asn_SPC_%s_specs_%d = {\n",
@@ -832,7 +832,7 @@ asn1c_lang_C_type_SEx_OF(arg_t *arg) {
 	    	&& expr_elements_count(arg, memb))
 	|| (memb->expr_type == ASN_BASIC_INTEGER
 		/* Own descriptor, see emit_member_table() */
-		&& asn1c_type_fits_long(arg, memb) == FL_FITS_UNSIGN)) {
+		&& asn1c_INTEGER_is_unsigned(arg, memb))) {
 		arg_t tmp;
 		asn1p_expr_t *tmp_memb = memb;
 		enum asn1p_expr_marker_e flags = memb->marker.flags;
@@ -1374,7 +1374,7 @@ asn1c_lang_C_type_SIMPLE_TYPE(arg_t *arg) {
 		&& expr->expr_type == ASN_BASIC_INTEGER
 		&& expr_elements_count(arg, expr))
 	|| (expr->expr_type == ASN_BASIC_INTEGER
-		&& asn1c_type_fits_long(arg, expr) == FL_FITS_UNSIGN)
+		&& asn1c_INTEGER_is_unsigned(arg, expr))
 	|| asn1c_REAL_fits(arg, expr) == RL_FITS_FLOAT32
 	)
 		etd_spec = ETD_HAS_SPECIFICS;
@@ -2900,7 +2900,7 @@ emit_member_table(arg_t *arg, asn1p_expr_t *expr, asn1c_ioc_table_and_objset_t *
 		OUT("-1,\t/* IMPLICIT tag at current level */\n");
 		else if(expr->expr_type == ASN_BASIC_ENUMERATED
 			|| (expr->expr_type == ASN_BASIC_INTEGER
-			    && asn1c_type_fits_long(arg, expr) == FL_FITS_UNSIGN))
+			    && asn1c_INTEGER_is_unsigned(arg, expr)))
 		/* The member's own descriptor (see below) has this tag */
 		OUT("0,\t/* EXPLICIT tag is in the tags of the type */\n");
 		else
@@ -2917,7 +2917,7 @@ emit_member_table(arg_t *arg, asn1p_expr_t *expr, asn1c_ioc_table_and_objset_t *
 			&& expr->expr_type == ASN_BASIC_INTEGER
 			&& expr_elements_count(arg, expr))
 		|| (expr->expr_type == ASN_BASIC_INTEGER
-			&& asn1c_type_fits_long(arg, expr) == FL_FITS_UNSIGN);
+			&& asn1c_INTEGER_is_unsigned(arg, expr));
 	if(C99_MODE) OUT(".type = ");
 
     OUT("&asn_DEF_");
@@ -3240,7 +3240,7 @@ emit_type_DEF(arg_t *arg, asn1p_expr_t *expr, enum tvm_compat tv_mode, int tags_
 				((terminal->expr_type & ASN_CONSTR_MASK) ||
 				(terminal->expr_type == ASN_BASIC_ENUMERATED) ||
 				((terminal->expr_type == ASN_BASIC_INTEGER) &&
-				(asn1c_type_fits_long(arg, terminal) == FL_FITS_UNSIGN)))) {
+				(asn1c_INTEGER_is_unsigned(arg, terminal))))) {
                 OUT("&asn_SPC_%s_specs_%d\t/* Additional specs */\n",
                     c_expr_name(arg, terminal).part_name,
                     terminal->_type_unique_index);
